@@ -158,11 +158,6 @@ example : naiveRemove .hd (modPred 2 1) [4, 6, 1, 8] 0 0 4 = .ok ([EMPTIED, EMPT
 theorem relOps_refines (lt eq : Nat → Nat → Bool) (hasym : ∀ x y, lt x y = true → lt y x = false) (a b : V) :
     relOps lt eq a b = .ok (Spec.rels lt eq a b) := relOps_eq lt eq hasym a b
 
-/-- a strict weak order: irreflexive, transitive, incomparability transitive -/
-def StrictWeak (lt : Nat → Nat → Bool) : Prop :=
-  (∀ x, lt x x = false) ∧ (∀ x y z, lt x y = true → lt y z = true → lt x z = true)
-    ∧ (∀ x y z, lt x y = false → lt y x = false → lt y z = false → lt z y = false → lt x z = false ∧ lt z x = false)
-
 /-- the same for any strict weak order `lt` and any `eq` -/
 theorem relOps_refines_strict_weak (lt eq : Nat → Nat → Bool) (hsw : StrictWeak lt) (a b : V) :
     relOps lt eq a b = .ok (Spec.rels lt eq a b) := by
